@@ -44,6 +44,10 @@ CHECKS = {
   text="May-alias analysis of every return/yield path of State and AnnotatedState decides, for all inputs, that no public method hands out or writes the private occupation list (or an inner label list); a whole-package ordering rule decides that no list captured by State(...) is mutated after construction (84 sites); structural rules decide that +, merge and slicing build new values, that __hash__ reads a subset of what __eq__ compares, that labels are sorted at construction, that herald removal pops in descending order and insertion walks positions, that dB conversion accepts exactly [0,1) and that the validated seed reaches the generators. These are the immutability / round-trip clauses in full; conversion numerics and validity of random matrices are not claimed.",
   note="Trusted: State.__init__ keeps the caller's list by documented design; callers outside lightworks are out of scope; scipy/numpy generators deterministic for a seed.",
   tech=TECH + "AST points-to/escape analysis with summaries, event-order rule on captured lists, field-dependence set comparison, comparison normal form", ref="DESIGN.md §3 R-C4, R-C5, R-L, R-J3; §4 C18"),
+ "C07": dict(
+  text="Def-use, ordering and comparison-polarity facts decide, for every detector setting / post-selection / min_detection / seed, the structure of the sampling pipelines: detector -> herald test on the detector output -> herald removal -> post-selection and n_photons >= min_detection on the same visible value -> keep that value (sample_N_inputs); threshold -> heralds -> removal -> filters -> accumulate -> renormalise -> one draw of size N, all counted (sample_N_outputs); refusal of dark counts / multi-photon heralds with threshold detectors before sampling; detector stages efficiency -> dark -> threshold with correct polarity, one draw per photon / per mode; all draws derive from the seed; results are visible-space. Known finding K1 (Sampler.sample returns un-heralded full-space states) is listed in known_findings.json. Convergence of frequencies is not claimed.",
+  note="Trusted: numpy Generator.choice; random.seed/random.random share the module generator; anchors are the loops over `samples` / `pdist.items()` (vanished anchor -> ANALYSIS-ERROR).",
+  tech=TECH + "def-use and dominance facts on the per-sample pipeline, guard facts in comparison normal form, stage-order by configuration-field reads, random-source effect rule", ref="DESIGN.md §3 R-I, R-J, R-E, R-B4; §4 C07"),
 }
 NA = {}
 
